@@ -14,7 +14,7 @@ LEVEL = "proof"
 RULE = ("collections of 1..8 trees on the same 4..9 taxa: a random multifurcating 'true' tree and variations of it "
         "(contractions, random re-resolutions, independent trees), each input unrooted (root degree >= 3) or rooted on a random "
         "branch (degree-2 root, sometimes next to a tip), children shuffled, parent slots at random positions, every branch with a "
-        "dyadic length; thresholds 0.5, 0.51, 0.55, 0.58, 0.6, 2/3, 0.7, 0.75, 0.8, 0.9, 1 and k/n for the collection size n "
+        "dyadic length; 40% of the collections use arbitrary taxon names (case variants of one name, prefixes, t1/t10/t01, numeric, blanks, quotes, non-ASCII); thresholds 0.5, 0.51, 0.55, 0.58, 0.6, 2/3, 0.7, 0.75, 0.8, 0.9, 1 and k/n for the collection size n "
         "(frequencies exactly on the threshold: 1 of 2, 2 of 4, 3 of 4, 3 of 5, 4 of 6, 6 of 8 ..., and the 50-tree collections "
         "29/50 at 0.58, plus 63/90 at 0.7 and 57/100 at 0.57 in the thorough tier); every base collection is run again "
         "shuffled, with every input re-rooted (unrooted inputs) and with some inputs rooted, and with PRE-USED inputs (the worker indexes "
@@ -152,6 +152,10 @@ def gen(rng, tier):
         ntips = rng.randint(4, 9)
         p_rooted = rng.choice([0, 0, 0.3, 1])
         ts = collection(rng, g, n, ntips, p_rooted)
+        if rng.random() < 0.4:
+            # arbitrary taxon names: case variants, prefixes of one another, t1/t10/t01, numeric, blanks, non-ASCII
+            mp = dict(zip(["t%d" % i for i in range(ntips)], _c08.tricky_names(rng, ntips)))
+            ts = [_c08.relabel(t, mp) for t in ts]
         cuts = [rng.choice(CUTOFFS)]
         # a threshold of the form k/n >= 1/2: frequencies exactly on it
         ks = [k for k in range(1, n + 1) if Fraction(k, n) >= Fraction(1, 2)]
